@@ -52,7 +52,7 @@ def run_std(rep, b, wd, std, utf8_expect):
 
 
 def compare(rep, std, order, out):
-    lines = [l for l in out.splitlines() if not l.startswith("UTF8 ")]
+    lines = [l for l in out.splitlines() if not l.startswith(("UTF8 ", "CMP "))]
     exp, owners = [], []
     for (m, j, c) in order:
         e = F.expected_line_cpp(m, j, c)
@@ -104,6 +104,11 @@ def run(tier):
         st = compare(rep, std, r["order"], r["out"])
         if r["rc"] != 0 and not rep.violations:
             rep.violation("C02|%s|driver-exit" % std, {"rc": r["rc"], "stderr": r["err"][-3000:]}, "C++ driver exited with %d: %s" % (r["rc"], r["err"][-300:]))
+        # comparison operators generated from the `comparison` special method
+        cm = [l for l in r["out"].splitlines() if l.startswith("CMP ")]
+        if cm != F.cmp_expected() and (cm or not rep.violations):
+            rep.violation("C02|%s|comparison-operators" % std, {"expected": F.cmp_expected(), "observed": cm},
+                          "C++ (%s) operators of a type with a comparison method disagree with Rust's ordering: %s" % (std, [l for l in cm if l not in F.cmp_expected()][:2]))
         # UTF-8 rule
         sw = [l for l in r["out"].splitlines() if l.startswith("UTF8 ")]
         if len(sw) != len(r["sweeps"]):
